@@ -215,7 +215,7 @@ def build_model():
             "path": "crate::gen::syn::%s" % t["name"].lower(), "feature": None, "ref": ref_id,
             "ref_variant": (upper_camel(ref_id) if ref_id else None),
             "si_ref": bool(t["ref"] and t["ref"]["prefix"]),
-            "derived": t["derived"], "units": units, "f64_only": bool(t.get("f64_only")),
+            "derived": t["derived"], "units": units, "f64_only": bool(t.get("f64_only")), "only": t.get("only"),
         })
     # the dimensionless amount
     one = mk_unit("One", "", None, Fraction(1), True, prefixes)
@@ -324,7 +324,7 @@ def gen_registry_rs(model):
         out.append("macro_rules! %s {" % name)
         out.append("    ($f:ident $(, $arg:expr)*) => {")
         for t in model["types"]:
-            if pred(t):
+            if pred(t) and (t.get("only") is None or name == "for_each_%s_extra_type" % t["only"].lower()):
                 cfg = "#[cfg(feature = \"astro\")] " if t["universe"] == "astro" else ""
                 if t.get("f64_only"):
                     cfg = "#[cfg(not(feature = \"dec\"))] "
@@ -339,6 +339,8 @@ def gen_registry_rs(model):
     group("for_each_type", lambda t: True, None)
     group("for_each_main_type", lambda t: t["universe"] == "main", None)
     group("for_each_serde_type", lambda t: t["universe"] in ("main", "syn"), None)
+    # types that take part in one check only (data/syn.json: "only")
+    group("for_each_c08_extra_type", lambda t: t.get("only") == "C08", None)
     # operator instances
     insts = operator_instances(model, ("main", "astro", "syn"))
     out.append("#[macro_export]")
